@@ -169,7 +169,7 @@ type rSide struct {
 
 func newSide(seed uint64, hist *core.History) *rSide {
 	s := &rSide{}
-	disk := core.NewSimDisk([]core.DiskFile{{Path: "bg/bg.go", Data: []byte("package bg\nimport \"time\"\nfunc Loop(n int) {\n\tfor i := 0; i < n; i++ {\n\t\ttime.Sleep(1000)\n\t}\n}\n")}}, hist)
+	disk := core.NewSimDisk([]core.DiskFile{{Path: "lib/lib.go", Data: []byte("package lib\nvar Loaded = 1\nfunc Twice(a int) int { return a * 2 }\n")}, {Path: "bg/bg.go", Data: []byte("package bg\nimport \"time\"\nfunc Loop(n int) {\n\tfor i := 0; i < n; i++ {\n\t\ttime.Sleep(1000)\n\t}\n}\n")}}, hist)
 	disk.Mute = true
 	s.h = core.NewHost(seed, disk, hist, func(vm *goatlang.VM) {
 		vm.Set("host.Obs", goatlang.NewFunc(2, 0, func(v *goatlang.VM, a []goatlang.Value, va ...goatlang.Value) []goatlang.Value {
